@@ -9,6 +9,9 @@ import (
 func pt(addr any) { rt.Point(rt.OpAtomic, addr, nil) }
 
 //go:norace
+func ptR(addr any) { rt.Point(rt.OpAtomic, rt.ReadOnly(addr), nil) }
+
+//go:norace
 func AddInt32(addr *int32, delta int32) int32     { pt(addr); rt.RaceRW(addr); *addr += delta; return *addr }
 //go:norace
 func AddInt64(addr *int64, delta int64) int64     { pt(addr); rt.RaceRW(addr); *addr += delta; return *addr }
@@ -18,13 +21,13 @@ func AddUint32(addr *uint32, delta uint32) uint32 { pt(addr); rt.RaceRW(addr); *
 func AddUint64(addr *uint64, delta uint64) uint64 { pt(addr); rt.RaceRW(addr); *addr += delta; return *addr }
 
 //go:norace
-func LoadInt32(addr *int32) int32    { pt(addr); rt.RaceRW(addr); return *addr }
+func LoadInt32(addr *int32) int32    { ptR(addr); rt.RaceRW(addr); return *addr }
 //go:norace
-func LoadInt64(addr *int64) int64    { pt(addr); rt.RaceRW(addr); return *addr }
+func LoadInt64(addr *int64) int64    { ptR(addr); rt.RaceRW(addr); return *addr }
 //go:norace
-func LoadUint32(addr *uint32) uint32 { pt(addr); rt.RaceRW(addr); return *addr }
+func LoadUint32(addr *uint32) uint32 { ptR(addr); rt.RaceRW(addr); return *addr }
 //go:norace
-func LoadUint64(addr *uint64) uint64 { pt(addr); rt.RaceRW(addr); return *addr }
+func LoadUint64(addr *uint64) uint64 { ptR(addr); rt.RaceRW(addr); return *addr }
 
 //go:norace
 func StoreInt32(addr *int32, v int32)    { pt(addr); rt.RaceRW(addr); *addr = v }
@@ -172,14 +175,14 @@ func (x *Bool) CompareAndSwap(o, n bool) bool {
 type Value struct{ v any }
 
 //go:norace
-func (x *Value) Load() any   { pt(x); rt.RaceRW(x); return x.v }
+func (x *Value) Load() any   { ptR(x); rt.RaceRW(x); return x.v }
 //go:norace
 func (x *Value) Store(v any) { pt(x); rt.RaceRW(x); x.v = v }
 
 type Pointer[T any] struct{ p *T }
 
 //go:norace
-func (x *Pointer[T]) Load() *T   { pt(x); rt.RaceRW(x); return x.p }
+func (x *Pointer[T]) Load() *T   { ptR(x); rt.RaceRW(x); return x.p }
 //go:norace
 func (x *Pointer[T]) Store(p *T) { pt(x); rt.RaceRW(x); x.p = p }
 //go:norace
